@@ -55,3 +55,14 @@ Example C01_history_nonvacuous :
   let st := exec2 None (empty2 4 []) c01_ops in
   beta (mem st) 1 2 = 1 /\ beta (mem st) 2 2 = 4 /\ beta (mem st) 1 1 = 0 /\ unused (mem st) 5 = true /\ nd st = 6.
 Proof. split; [apply hist_preb_sound; vm_compute; reflexivity | vm_compute; repeat split; reflexivity]. Qed.
+
+(** The link / unlink cores all of this is about are the programs regenerated from components/betas.rs by
+    tools/tr_betas.py on every run. *)
+From HC Require Import Map2.GenBetas Map2.GenBetasLaws.
+Theorem C01_cores_are_the_source `{Sig} :
+  (forall l r, gen_one_link_core l r = one_link_core l r) /\ (forall l r, gen_two_link_core l r = two_link_core l r) /\
+  (forall l, gen_one_unlink_core l = one_unlink_core l) /\ (forall l, gen_two_unlink_core l = two_unlink_core l).
+Proof.
+  destruct cores_are_the_source as (A & B & _ & C & D & _). repeat split; assumption.
+Qed.
+Print Assumptions C01_cores_are_the_source.
